@@ -347,6 +347,9 @@ theorem stepB_norm_map (c : Cfg) (k : Nat) (hk : c.critical k = false) (st : StB
   case cancelAck j =>
     stepA_split c k st.a (.cancelAck j)
     simp only [norm_eq_iff, and_true]; assumption
+  case extCancel =>
+    stepA_split c k st.a .extCancel
+    simp only [norm_eq_iff, and_true]; assumption
   case waitReturn s =>
     stepA_split c k st.a (.waitReturn s)
     all_goals split
